@@ -283,7 +283,9 @@ class DV(object):
             return self.imag_()
         if name in ('conj', 'conjugate'):
             return self
-        if name in ('isnan', 'isinf', 'isfinite'):
+        if name == 'isnan':
+            return self.isnan_()
+        if name in ('isinf', 'isfinite'):
             return Unk(('fn', name, self))
         if name == 'iscomplex':
             return self.iscomplex_()
